@@ -50,6 +50,51 @@ Definition e_c11_fdr (v : val) : val :=
 
 Definition fun_of_list {A} (d : A) (l : list A) (base : Z) (i : Z) : A := nth (Z.to_nat (i - base)) l d.
 
+(* [signal; weights|None; q; scales_u; scales_w; pvals; absorb] (per-level oracle lists) -> haar_result *)
+Definition c11_run (s w q su sw pv ab : val) : option haar_result :=
+  match getQs s, getOptQs w, getQ q, getQs su, getQs sw, getList getQs pv, getList getB ab with
+  | Some sg, Some wt, Some q, Some su, Some sw, Some pv, Some ab =>
+      let lv0 := hd 0 haar_levels in
+      let scale_u h := fun_of_list 1%Q su lv0 (Z.log2 h) in
+      let scale_w h := fun_of_list 1%Q sw lv0 (Z.log2 h) in
+      Some (haar_seg scale_u scale_w (fun_of_list [] pv lv0) (fun_of_list false ab lv0) sg wt q)
+  | _, _, _, _, _, _, _ => None
+  end.
+
+Definition vRow (r : Z * Z * Q * Z) : list val :=
+  match r with (s, e, m, z) => [VZ s; VZ e; VQ (Qred m); VZ z] end.
+
+(* [starts; ends; smoothed signal; weights|None; q; scales_u; scales_w; pvals; absorb] -> one_chrom rows *)
+Definition c11_one_chrom (v : val) : option (list (Z * Z * Q * Z)) :=
+  match v with
+  | VL [st; ed; s; w; q; su; sw; pv; ab] =>
+      match getZs st, getZs ed, c11_run s w q su sw pv ab with
+      | Some st, Some ed, Some r => Some (one_chrom_table st ed r)
+      | _, _, _ => None
+      end
+  | _ => None
+  end.
+
+Definition e_c11_one_chrom (v : val) : val :=
+  match c11_one_chrom v with
+  | Some rows => VL (map (fun r => VL (vRow r)) rows)
+  | None => bad_input
+  end.
+
+(* list of arms, each [chromosome; [starts; ends; signal; weights|None; q; su; sw; pv; ab]] -> segment_haar rows *)
+Definition e_c11_segment_haar (v : val) : val :=
+  match getList (getPair getS c11_one_chrom) v with
+  | Some arms => VL (map (fun cr => VL (VS (fst cr) :: vRow (snd cr))) (segment_haar_table arms))
+  | None => bad_input
+  end.
+
+(* [signal; pulseSize] -> PulseConv, VNone where the code raises *)
+Definition e_c11_pulse (v : val) : val :=
+  match getPair getQs getZ v with
+  | Some (sg, p) => match pulse_conv sg p with Some r => vListQ r | None => VNone end
+  | None => bad_input
+  end.
+
 (* [signal; weights|None; q; sqrt2; scales_u (per level); scales_w (per level); pvals (per level); absorb (per level)]
    -> [breaks; start; end; size; mean; sigma; peaks per level; addon per level]
    The per-level oracle lists are indexed by level - haar_start_level. *)
